@@ -42,6 +42,10 @@ type Weights struct {
 	RoundsPool []int
 	// Hooks: the history starts with an OpHooks operation (C17 history part).
 	Hooks bool
+	// MsgFaultPct: chance (per mille) that a coin-moving message runs with a failing bank transfer.
+	MsgFaultPct int
+	// NoRollbackPct: chance that a keeper-level allow-list call is made by a module that ignores its error.
+	NoRollbackPct int
 	// UpperPct: chance that an operation writes its (valid) signer / bidder address in upper case;
 	// bech32 allows both spellings and both denote the same account.
 	UpperPct int
@@ -50,7 +54,7 @@ type Weights struct {
 // DefaultWeights is the general mix.
 func DefaultWeights() Weights {
 	return Weights{CreateFixed: 6, CreateBatch: 8, AddAllowed: 10, UpdateAllowed: 4, PlaceBid: 30, ModifyBid: 10,
-		Cancel: 3, Donate: 4, Block: 22, UpdateParams: 2, MsgAddAllowed: 1, PerturbPct: 12, PoorPct: 15, MaxAuctions: 4, ManyInstalmentsPct: 3, SnipePct: 10, DonateWaitingPct: 15, Reimport: 2, FaultBlock: 1, UpperPct: 3}
+		Cancel: 3, Donate: 4, Block: 22, UpdateParams: 2, MsgAddAllowed: 1, PerturbPct: 12, PoorPct: 15, MaxAuctions: 4, ManyInstalmentsPct: 3, SnipePct: 10, DonateWaitingPct: 15, Reimport: 2, FaultBlock: 1, UpperPct: 3, MsgFaultPct: 15, NoRollbackPct: 40}
 }
 
 // Gen draws operations. All randomness comes from rapid draws.
@@ -374,6 +378,17 @@ func (g *Gen) Next(t *rapid.T, w *World, s *Snap) Op {
 				o.BidderStr = strings.ToUpper(Addrs[o.Bidder].String())
 				g.label("address-written-in-upper-case")
 			}
+		}
+	}
+	switch o.Kind {
+	case OpCreateFixed, OpCreateBatch, OpCancel, OpPlaceBid, OpModifyBid:
+		if g.W.MsgFaultPct > 0 && uni(t, "msg-bank-fault", 1000) < g.W.MsgFaultPct {
+			o.BankFault = 1 + uni(t, "msg-bank-fault-at", 3)
+			g.label("message-with-injected-bank-fault")
+		}
+	case OpAddAllowed, OpUpdateAllowed:
+		if pct(t, g.W.NoRollbackPct, "no-rollback") {
+			o.NoRollback = true
 		}
 	}
 	for _, f := range []*string{&o.CoinAmount, &o.SellAmount, &o.MaxBid, &o.Amount} {
